@@ -115,9 +115,7 @@ class BuiltinMixin:
         # only used as `get_origin(x) is not None` / `is Union`: result is an abstract value
         f = z3.Function("get_origin_u", Val, Val)
         def fn(s, v):
-            r = f(v[0].t)
-            s.assume((r != VNone) == has_origin_u(v[0].t))
-            return [Res(s, SV(r, ANY))]
+            return [Res(s, SV(f(v[0].t), ANY))]
         return self._simple(node, st, fn)
 
     def bi_get_args(self, node, st):
